@@ -44,7 +44,7 @@ func c11ScalarSet(r *core.Rand, g group.Group, n int) [][]byte {
 func runC11(c *core.Ctx) {
 	setup := c.Rng("setup")
 	K := c.Pick(3, 4)
-	M := c.Pick(8, 40)
+	M := c.Pick(8, 120)
 	B := c.Pick(8, 24)
 	rk := RSAKeys()
 	var k1, k5 []*oprf.PrivateKey
